@@ -10,6 +10,7 @@ import (
 	"fmt"
 	"io"
 	"os"
+	"runtime/debug"
 	"sort"
 	"strconv"
 	"strings"
@@ -870,7 +871,7 @@ func families(thorough bool) []family {
 	}
 	plansFew := [][]string{{"1"}, {"1", "2"}, {"50%", "100%"}, {"1", "2", "3"}}
 	// replicas: the degenerate 0 comes last so that witnesses are natural
-	replAll := []int{1, 2, 3, 4, 6, 0}
+	replAll := []int{1, 2, 3, 5, 0}
 	replFew := []int{2, 3}
 	if thorough {
 		plansAll = append(plansAll, []string{"-1", "2"}, []string{"abc", "1"}, []string{"150%"}, []string{"1", "2", "2"}, []string{"34%", "67%", "100%"})
@@ -1040,6 +1041,9 @@ func Run(r *lib.Report) {
 		"terminating pods carry a finalizer so that the fake store keeps them when patched (it would otherwise delete them and hide a wrongly labelled terminating pod).",
 	}
 	r.TrustedBase = []string{"controller-runtime v0.14.6 fake client (strategic-merge patch of labels)", "control.CalculateBatchReplicas / util.IsConsistentWithRevision for deriving the context (their own correctness belongs to C01)"}
+
+	// millions of short-lived fake stores over a small live heap: collect less often (restored on return)
+	defer debug.SetGCPercent(debug.SetGCPercent(800))
 
 	fams := families(r.Thorough())
 	msg, comparisons := selfCheckContext(fams)
